@@ -131,7 +131,11 @@ def finish(ctx, explanation, broken=None):
     if unlisted:
         repdir = os.path.join(evdir, 'reports')
         os.makedirs(repdir, exist_ok=True)
+        seen_keys = set()
         for f in unlisted:
+            if finding_key(ctx.prop, f) in seen_keys:
+                continue
+            seen_keys.add(finding_key(ctx.prop, f))
             h = hashlib.sha1(json.dumps(finding_key(ctx.prop, f)).encode()).hexdigest()[:10]
             path = os.path.join(repdir, f'{ctx.prop}-{f["rule"]}-{h}.json')
             with open(path, 'w') as fh:
